@@ -377,6 +377,8 @@ func (fr *FileReader) readerForOffset(ctx context.Context, off int64) (io.ReadCl
 	if err != nil {
 		return nil, err
 	}
+	// What remains of this part after skipping offRemain bytes into it.
+	partRemain := int64(p0.Size) - offRemain
 	offRemain += int64(p0.Offset)
 	if offRemain > 0 {
 		newPos, err := rsc.Seek(offRemain, io.SeekStart)
@@ -391,7 +393,7 @@ func (fr *FileReader) readerForOffset(ctx context.Context, off int64) (io.ReadCl
 		io.Reader
 		io.Closer
 	}{
-		io.LimitReader(rsc, int64(p0.Size)),
+		io.LimitReader(rsc, partRemain),
 		rsc,
 	}, nil
 }
